@@ -86,8 +86,17 @@ def signature(p: gen_prog.Prog) -> str:
 
 
 def shrink(pl: cxx.Pipeline, p: gen_prog.Prog, r: dict[str, Any], rounds: int = 12) -> tuple[gen_prog.Prog, dict[str, Any]]:
-	"""Generic greedy reduction of an unexplained failure (same failure status must persist)."""
-	status = r['status']
+	"""Generic greedy reduction of an unexplained failure (the same failure must persist: status, and for a rejection the same
+	exception — deleting a declaration turns any rejected program into one rejected for an unresolved name, which is another failure)."""
+
+	def sig(x: dict[str, Any]) -> str:
+		if x['status'] != 'rejected':
+			return x['status']
+		why = str(x.get('why', ''))
+		inner = re.findall(r'([A-Za-z]+(?:Error|Exception))\(', why)
+		return f"rejected:{why.split(':', 1)[0]}:{inner[-1] if inner else ''}"
+
+	status = sig(r)
 
 	def candidates(q: gen_prog.Prog) -> list[gen_prog.Prog]:
 		out: list[gen_prog.Prog] = []
@@ -166,7 +175,7 @@ def shrink(pl: cxx.Pipeline, p: gen_prog.Prog, r: dict[str, Any], rounds: int = 
 		if not cands:
 			break
 		res = pl.check_many([gen_prog.to_dict(c) for c in cands], per_unit=1)
-		good = [(len(gen_prog.print_prog(c)), i) for i, (c, rr) in enumerate(zip(cands, res)) if rr['status'] == status]
+		good = [(len(gen_prog.print_prog(c)), i) for i, (c, rr) in enumerate(zip(cands, res)) if sig(rr) == status]
 		if not good:
 			break
 		_, i = min(good)
@@ -236,6 +245,29 @@ def search_programs(ctx: Ctx, pl: cxx.Pipeline) -> SearchResult:
 		if r['status'] in ('mismatch', 'rejected', 'cxx-rejected'):
 			res.findings.append(Finding(key=key, what=gen_prog.PROBE_WHAT[key] + f" [probe program: {r['status']}]",
 				replay={'key': key, 'program': d, 'result': _short(r), 'emitted': r.get('emitted')}))
+
+	# 2c. forced operator pairs: every well-typed parent x child pair of the precedence ladder (unary x binary, binary x binary x side,
+	# binary x unary) as its own tiny function, called on arguments on which the two groupings of the operator sequence differ
+	pcases = gen_prog.pair_cases(random.Random(rng.random()))
+	pprogs = gen_prog.pair_programs(rng, pcases, per_program=12)
+	hist['pair:cases'] = len(pcases)
+	hist['pair:cases-with-distinguishing-arguments'] = sum(1 for c in pcases if c['distinguishing'])
+	bad_cases: list[dict[str, Any]] = []
+	for (chunk, d), r in zip(pprogs, pl.check_many([d for _, d in pprogs], per_unit=6)):
+		res.cases += 1
+		hist[f"pair-program:{r['status']}"] += 1
+		if r['status'] in ('mismatch', 'rejected', 'cxx-rejected'):
+			bad_cases.extend(chunk)
+	if bad_cases:
+		# locate: one function per program
+		singles = gen_prog.pair_programs(rng, bad_cases, per_program=1)
+		for (chunk, d), r in zip(singles, pl.check_many([d for _, d in singles], per_unit=1)):
+			if r['status'] in ('mismatch', 'rejected', 'cxx-rejected'):
+				c = chunk[0]
+				hist[f"pair-finding:{c['key']}"] += 1
+				res.findings.append(Finding(key=c['key'], what=f"operator pair: `{c['expr']}` (Python groups {c['full']}) does not behave like the source "
+					f"[the other grouping of the same operators is {c['alt']}; {r['status']}]",
+					replay={'key': c['key'], 'program': d, 'result': _short(r), 'emitted': r.get('emitted')}))
 
 	# 3. attribute every failing program to defect classes; shrink what stays unexplained
 	unexplained = 0
@@ -648,7 +680,7 @@ def stream_sem(ctx: Ctx, emit_cases_done: list[tuple[dict[str, Any], list[str], 
 	py_real: list[str | None] = []
 	for d, vals, _ in cases_in:
 		prog = {'source': f"def f(a: int, b: int, c: int, p: bool, q: bool, x: float, y: float) -> int:\n\treturn {d['expr']}\n",
-			'entries': [{'fn': 'f', 'params': ['int', 'int', 'int', 'bool', 'bool', 'float', 'float'], 'ret': 'int', 'args': [[vals[n] for n in names]]}], 'classes': {}}
+			'entries': [{'fn': 'f', 'params': ['int', 'int', 'int', 'bool', 'bool', 'float', 'float'], 'ret': 'int', 'args': [[vals[n] for n in names]]}], 'classes': {}, 'strict_truth': True}
 		r = cxx.run_python(prog)[('f', 0)]
 		if r.startswith('out:') and 'exactly representable' in r:
 			py_real.append(None)   # the search's float domain (binary32-exact) is narrower than the model's abstract floats: not comparable
